@@ -82,6 +82,12 @@ CHECKS = {
             "(FUNG event): reflexive, symmetric, DocFungible => true, admits = value; every pair reported fungible is "
             "cross-decoded on boundary values and judged by Dec of Wire.tla (accept when the counts fit, corresponding "
             "value, identical re-encoding).", "6 C09"),
+    "C14": ("Rpc.tla: request = selector (SipHash-2-4 of the method name keyed by the interface hash, or explicit) followed by "
+            "the argument tuple; Dispatch(I, bytes) says which handler must run with which arguments, or which error with no "
+            "handler and no reply. MC_Rpc model-checks framing/one-handler/return invariants over all call sequences. "
+            "End-to-end executions (Invoke -> SimpleMethodSender -> loopback pipes -> SimpleMethodReceiver -> "
+            "InterfaceBindings -> handler) incl. truncated/corrupted/raw requests are validated call by call by TrRpc.tla "
+            "(request framing, dispatcher status, handler log, reply bytes, Invoke result, pipe positions).", "6 C14"),
 }
 
 PENDING_REASON = "check under construction in this session (DESIGN.md section 12); moves to checks when built"
